@@ -33,13 +33,34 @@ func ManageCanaryDeployment(client client.Client, daemonset *v1alpha1.ExtendedDa
 	// Populate list of unscheduled pods on nodes due to resource limitation
 	result.UnscheduledNodesDueToResourcesConstraints = manageUnscheduledPodNodes(params.UnscheduledPods)
 
-	// Cleanup Pods
-	err = cleanupPods(client, params.Logger, result.NewStatus, params.PodToCleanUp)
+	// Cleanup Pods: the canary replica set only manages the canary nodes. The pods located on the other nodes are left to
+	// the active replica set: a node can be eligible for the active template without being eligible for the canary one.
+	err = cleanupPods(client, params.Logger, result.NewStatus, podsOnNodes(params.PodToCleanUp, params.CanaryNodes))
 	if err != nil {
 		result.Result = requeuePromptly()
 	}
 
 	return result, nil
+}
+
+// podsOnNodes returns the pods located on one of the given nodes.
+func podsOnNodes(pods []*v1.Pod, nodeNames []string) []*v1.Pod {
+	var output []*v1.Pod
+	for _, pod := range pods {
+		nodeName, err := podUtils.GetNodeNameFromPod(pod)
+		if err != nil {
+			continue
+		}
+		for _, name := range nodeNames {
+			if name == nodeName {
+				output = append(output, pod)
+
+				break
+			}
+		}
+	}
+
+	return output
 }
 
 // manageCanaryStatus manages ReplicaSet status in Canary state.
